@@ -9,6 +9,8 @@ M   : spec/Voter.tla (design layer = voter.go vote path + vote_cache.go, crash p
                      now pass (information only: this run never decides the exit code)
 G1  : every behaviour up to a length over a reduced alphabet (crash points included: right before the first write, after
       every write, after every post), printed as JSON.
+GA  : every behaviour of two small alphabets: next-index votes only with TWO crashes; re-entry of an earlier (round, index)
+      without a restart (Back), no crash.
 GV  : one shortest behaviour into every distinct design state right after a restart + first event (all reachable disks).
 G2  : `tlc -simulate` over the rich alphabet (3 rounds x 3 indices, certificate round, several crashes).
 T   : the driver `voter` steps every behaviour through the real ucon.Voter/VoteDB (exported constructor, crash-injecting
@@ -33,6 +35,8 @@ CONSTANTS
   Mode = "%(Mode)s"
   MaxOps = %(MaxOps)d
   GVAfter = %(GVAfter)d
+  StepSet = %(StepSet)s
+  Back = %(Back)s
   Weaken = %(Weaken)s
 %(tail)s
 CHECK_DEADLOCK FALSE
@@ -43,7 +47,7 @@ REPAIRS = '{"certReload", "replayMoves", "noBackward"}'
 
 
 def cfg(mode, **kw):
-    d = dict(MaxR=1, MaxI=2, MaxCrash=1, Cert="{}", QKinds=ALLK, MaxQ=2, Repair=REPAIRS, Mode=mode, MaxOps=0, Weaken="FALSE", GVAfter=1)
+    d = dict(MaxR=1, MaxI=2, MaxCrash=1, Cert="{}", QKinds=ALLK, MaxQ=2, Repair=REPAIRS, Mode=mode, MaxOps=0, Weaken="FALSE", GVAfter=1, StepSet="{2, 4, 5}", Back="TRUE")
     d.update(kw)
     if mode == "M":
         d["head"], d["tail"] = "SPECIFICATION Spec", INVS
@@ -80,12 +84,14 @@ def design(ctx):
     cex = []
     runs = []
     if quick:
-        runs.append(("M_repaired", dict(MaxQ=1)))
+        runs.append(("M_repaired", dict(MaxQ=1, Back="FALSE")))
+        runs.append(("M_repaired_back", dict(MaxQ=1, QKinds='{"Prevote"}')))          # with re-entry of earlier contexts
         runs.append(("M_repaired_cert", dict(MaxI=1, Cert="{1}")))
     else:
-        runs.append(("M_repaired", dict(MaxQ=2, MaxCrash=2)))
-        runs.append(("M_repaired_cert", dict(Cert="{1}")))
-        runs.append(("M_repaired_2rounds", dict(MaxR=2, MaxQ=1)))
+        runs.append(("M_repaired", dict(MaxQ=2, MaxCrash=2, Back="FALSE")))
+        runs.append(("M_repaired_back", dict(MaxQ=1)))
+        runs.append(("M_repaired_cert", dict(Cert="{1}", Back="FALSE")))
+        runs.append(("M_repaired_2rounds", dict(MaxR=2, MaxQ=1, Back="FALSE")))
     ok = True
     zero = set()
     for name, kw in runs:
@@ -105,7 +111,7 @@ def design(ctx):
         ctx.cov["coverage_zero_actions"] = sorted(zero)
     # the design as coded BEFORE the fix commits, invariants as stated: the argument for the fixes.  Its counterexamples
     # are replayed on the real code like any other behaviour (they must pass now); the run itself decides nothing.
-    ms = ctx.tlc("Voter", cfg("M", Repair="{}", Cert="{1}", MaxI=2), name="M_before_fix", timeout=1500, count=False)
+    ms = ctx.tlc("Voter", cfg("M", Repair="{}", Cert="{1}", MaxI=2, Back="FALSE"), name="M_before_fix", timeout=1500, count=False)
     before = ms.violated
     for v in ms.printed:
         if isinstance(v, dict) and v.get("kind") == "CEX":
@@ -122,14 +128,14 @@ def generate(ctx):
     behs += cex
     nc = len(behs)
     # G1: bounded exhaustive, reduced alphabets
-    g1 = [ctx.tlc_must("Voter", cfg("G", QKinds='{"Prevote", "Next"}', MaxQ=1, MaxOps=6 if quick else 7), name="G1_bounded", timeout=1500)]
-    g1.append(ctx.tlc_must("Voter", cfg("G", MaxI=1, Cert="{1}", QKinds='{"Prevote", "Precommit", "Cert"}', MaxQ=3, MaxOps=6 if quick else 7),
+    g1 = [ctx.tlc_must("Voter", cfg("G", QKinds='{"Prevote", "Next"}', MaxQ=1, MaxOps=6 if quick else 7, Back="FALSE"), name="G1_bounded", timeout=1500)]
+    g1.append(ctx.tlc_must("Voter", cfg("G", MaxI=1, Cert="{1}", QKinds='{"Prevote", "Precommit", "Cert"}', MaxQ=3, MaxOps=6 if quick else 7, Back="FALSE"),
                            name="G1_cert", timeout=1500))
     rnd = random.Random(ctx.seed)
     for g in g1:
         hs = [v["h"] for v in g.printed if isinstance(v, dict) and v.get("kind") == "B"]
         hs.sort(key=lambda h: json.dumps(h, sort_keys=True))
-        cap = 6000 if quick else 60000
+        cap = 4000 if quick else 60000
         if len(hs) > cap:
             rnd.shuffle(hs)
             hs = hs[:cap]
@@ -137,11 +143,24 @@ def generate(ctx):
     # GV: one behaviour into every distinct state right after the restarted node processed its first event(s): every reachable
     # combination of the five disk records (two rounds x two indices; certificate round) with every restart round and
     # every vote-capable first event -- the restore logic of NewVoteDB depends on nothing else
-    gv = [("GV_rounds", dict(MaxR=2, MaxI=2, QKinds='{"Prevote"}', MaxQ=1, GVAfter=1 if quick else 2)),
-          ("GV_cert", dict(MaxI=2, Cert="{1}", QKinds='{"Prevote", "Precommit"}', MaxQ=2, GVAfter=1 if quick else 2))]
-    for name, kw in gv:
-        g = ctx.tlc_must("Voter", cfg("GV", **kw), name=name, timeout=1500, count=False)
+    gv = [("GV", "GV_rounds", dict(MaxR=2, MaxI=2, QKinds='{"Prevote"}', MaxQ=1, GVAfter=1 if quick else 2, Back="FALSE")),
+          ("GV", "GV_cert", dict(MaxI=2, Cert="{1}", QKinds='{"Prevote", "Precommit"}', MaxQ=2, GVAfter=1 if quick else 2, Back="FALSE")),
+          # every behaviour (history matters, not only the state reached) of two small alphabets:
+          # next-index votes only, TWO crashes (which slot a record goes to depends on what the restarted VoteDB holds)
+          ("GA", "G1_next_2crashes", dict(MaxI=1, MaxCrash=2, QKinds='{"Prevote"}', MaxQ=1, StepSet="{4}", Back="FALSE",
+                                          MaxOps=11 if quick else 12)),
+          # re-entry of an EARLIER (round, index) without a restart (Server.Resume, stale ContextChangeEvent), no crash
+          ("GA", "G1_context_back", dict(MaxR=2, MaxI=2, MaxCrash=0, QKinds='{"Prevote"}', MaxQ=1, StepSet="{2, 4}", Back="TRUE",
+                                         MaxOps=6 if quick else 7))]
+    for mode, name, kw in gv:
+        g = ctx.tlc_must("Voter", cfg(mode, **kw), name=name, timeout=1500, count=False)
         hs = [v["h"] for v in g.printed if isinstance(v, dict) and v.get("kind") == "B"]
+        if mode == "GA":
+            pref = set()
+            for h in hs:
+                for n in range(1, len(h)):
+                    pref.add(json.dumps(h[:n], sort_keys=True))
+            hs = [h for h in hs if json.dumps(h, sort_keys=True) not in pref]
         hs.sort(key=lambda h: json.dumps(h, sort_keys=True))
         cap = 8000 if quick else 40000
         if len(hs) > cap:
@@ -152,7 +171,7 @@ def generate(ctx):
     # G2: simulation over the rich alphabet
     depth = 16 if quick else 24
     num = 150 if quick else 1500
-    g2 = ctx.tlc_must("Voter", cfg("G", MaxR=3, MaxI=3, MaxCrash=3, Cert="{2}", MaxQ=3, MaxOps=depth), name="G2_simulate",
+    g2 = ctx.tlc_must("Voter", cfg("G", MaxR=3, MaxI=3, MaxCrash=3, Cert="{2}", MaxQ=3, MaxOps=depth, Back="FALSE"), name="G2_simulate",
                       timeout=1500, simulate={"num": num}, depth=depth + 2)
     sim = [v["h"] for v in g2.printed if isinstance(v, dict) and v.get("kind") == "B"]
     sim.sort(key=lambda h: json.dumps(h, sort_keys=True))
@@ -235,8 +254,11 @@ def run(ctx):
     ctx.assumptions += [
         "one validator; sortition stubbed: always selected with weight 1 (threshold 10, quorum 6); a 'quorum' is one signed vote of weight 10 from a sender that never equivocates",
         "signing without BLS (EnableBls=false in the stubbed parameters): the persisted marks, not the signature scheme, are the mechanism",
-        "contexts follow the engine: (round, index) never decreases while the process runs, steps only grow inside a (round, index), "
-        "a new index/round starts at step 0, a restart puts the engine at (head+1, 1) with head never decreasing",
+        "contexts follow the engine: steps only grow inside a visit of a (round, index), a new index/round starts at step 0, a restart "
+        "puts the engine at (head+1, 1) with head never decreasing; (round, index) grows while the process runs -- except in the "
+        "alphabets with Back = TRUE, where the engine may re-enter any earlier (round, index) at step 0 without a restart "
+        "(Server.Resume after a sync, a stale ContextChangeEvent); at most four contexts there (the voter keeps four wrappers)",
+        "every round number is handed to the code as a fresh big.Int on every event (no object shared with what the Voter/VoteDB holds)",
         "every proposal is in the proposal cache (blockInCacheFn never returns nil)",
         "votes are compared as a set of (kind, round, index, hash): re-signing the same hash is not a second vote",
         "crash = the process dies right after or right before a database write of the run; nothing else survives but the database",
